@@ -131,7 +131,7 @@ static void item_secure(uint64_t idx)
 /* ------------------------------------------------------------------ call sites */
 static void quiet(int sev, const char *msg) { (void)sev; (void)msg; }
 static int fired[16], nfired, order[16];
-static void rd_cb(evutil_socket_t fd, short what, void *arg) { (void)fd; (void)what; int i = (int)(intptr_t)arg; fired[i]++; if (nfired < 16) order[nfired++] = i; }
+static void rd_cb(evutil_socket_t fd, short what, void *arg) { char c; (void)what; int i = (int)(intptr_t)arg; (void)!read(fd, &c, 1); fired[i]++; if (nfired < 16) order[nfired++] = i; }
 
 /* poll / select: n readable pipes; with the generator in state s one pass must run every callback exactly once,
  * in an order that is a rotation of the registration order (the random start index only rotates the scan) */
@@ -145,13 +145,14 @@ static void site_backend(const char *method, const char *avoid1, const char *avo
 		event_config_free(cfg);
 		if (!base || strcmp(event_base_get_method(base), method)) { mc_fail("harness:backend", "wanted %s", method); if (base) event_base_free(base); return; }
 		int p[6][2]; struct event *ev[6];
-		for (int i = 0; i < n; i++) { if (pipe(p[i])) { mc_fail("harness:pipe", "pipe"); return; } (void)!write(p[i][1], "x", 1); ev[i] = event_new(base, p[i][0], EV_READ | EV_PERSIST, rd_cb, (void *)(intptr_t)i); event_add(ev[i], NULL); }
+		for (int i = 0; i < n; i++) { if (pipe(p[i])) { mc_fail("harness:pipe", "pipe"); return; } ev[i] = event_new(base, p[i][0], EV_READ | EV_PERSIST, rd_cb, (void *)(intptr_t)i); event_add(ev[i], NULL); }
 		static const int32_t KEY[] = { 0, 1, 2, 3 };
 		for (unsigned a = 0; a < 400; a++) {
 			/* states whose next value lands on each start index boundary, and spread states */
 			uint32_t s = a < 40 ? lcg_prev((uint32_t)(((uint64_t)(a / 4) * (M31 / (uint32_t)(n + 3))) + KEY[a % 4]) & M31) : (uint32_t)((a * 2654435761u) & M31);
 			base->weakrand_seed.seed = s;
 			memset(fired, 0, sizeof fired); nfired = 0;
+			for (int i = 0; i < n; i++) (void)!write(p[i][1], "x", 1);      /* every descriptor ready; the callback takes the byte away again */
 			event_base_loop(base, EVLOOP_NONBLOCK);
 			(*cnt)++;
 			int ok = nfired == n;
@@ -186,7 +187,8 @@ static void site_group(uint64_t *cnt)
 			if (!member && ONCE(bad)) mc_fail("C46/callsite/rate-limit-group-first-member", "%d members, generator state %u: returned %p which is not a member", n, s, (void *)m);
 		}
 	}
-	for (int i = 0; i < 8; i++) bufferevent_free(bev[i]);
+	for (int i = 0; i < 8; i++) { bufferevent_remove_from_rate_limit_group(bev[i]); bufferevent_free(bev[i]); }
+	event_base_loop(base, EVLOOP_NONBLOCK);        /* run the deferred finalizers */
 	bufferevent_rate_limit_group_free(g);
 	ev_token_bucket_cfg_free(cfg);
 	event_base_free(base);
